@@ -57,6 +57,14 @@ CHECKS.update({
          "DESIGN.md §4 C05"),
 })
 
+CHECKS.update({
+ "C03": ("E1-choice-tree",
+         "complete product of module-scope arrangements x entity kinds x reference spellings x positions x file orders compiled by the real compiler; bindings compared with a reference resolver",
+         "All 7^3 kind assignments of same-named definitions over three nested module levels, every referencing level, 7 referencing positions, 12 reference spellings and 6 file orders (518k compilations) plus attribute-carrying alias chains up to length 4 are compiled; where the reference resolver (written from the statement) says 'bound' the whole observed AST including the scoped identifier and kind of every bound definition must equal the model, otherwise a resolution error must be reported; every entity is retrieved by its scoped name.",
+         "trusted: the reference resolver in mc/src/model/resolve.rs; name collisions between a module and a definition are C15's subject and excluded here",
+         "DESIGN.md §4 C03"),
+})
+
 NOT_YET = {}
 
 def main():
